@@ -16,6 +16,7 @@
    two clauses that fail for it are kept as _partial / _refuted. *)
 From Coq Require Import ZArith List Bool String.
 From DRF Require Import Base.Fs Model.WriterProto Proofs.ProtoSafety Proofs.WriterProtoProofs Proofs.ProtoReader.
+From DRF Require Import Proofs.WriterFaultProofs Proofs.WriterProtoRestart.
 Import ListNotations.
 Local Open Scope Z_scope.
 
@@ -90,3 +91,20 @@ Theorem C02_clean_close_all_readable : forall v rc cands d k tg,
   exists l, read_pass (state_after (trace_of v rc) empty_fs) cands = Some l /\ In (k, tg) l.
 Proof. exact after_close_sees_all. Qed.
 Print Assumptions C02_clean_close_all_readable.
+
+(* restart after a kill: a new writer session ([wrun_on s]: same code, started on the tree [s] the killed
+   recorder left) whose first piece addresses the file period of a leftover tmp file: under ANY fault
+   oracle and both variants the exclusive creation is refused, has_failure is set, every write of the
+   session is refused and nothing appears or changes under a final name -- in particular the leftover
+   file is never renamed (the close takes the has_failure branch and removes it: Example
+   restart_removes_leftover in Proofs/WriterProtoRestart.v) *)
+Theorem C02_restart_over_stale_tmp : forall F v rc s fp rest cs c,
+  r_calls rc = (fp :: rest) :: cs ->
+  open_channel s = true ->
+  s (PData (fp_d fp) true (fp_k fp)) = Some (File c) ->
+  s (PData (fp_d fp) false (fp_k fp)) = None ->
+  let r := wrun_on s F v rc in
+  rs_init r = true /\ rs_out r = map (fun _ => false) (r_calls rc) /\ w_hf (rs_w r) = true /\
+  forall d k, w_fs (rs_w r) (PData d false k) = s (PData d false k).
+Proof. exact restart_over_stale_tmp. Qed.
+Print Assumptions C02_restart_over_stale_tmp.
